@@ -34,6 +34,49 @@ unexpected_cfgs = {{ level = "allow" }}
 """
 
 
+BOUNDED_CFG = """
+// BOUNDED (3 instructions): block discipline for one concrete shape of opcodes and every offset the
+// verifier accepts for it (including a jump back to instruction 0, dead code after ja, blocks reached only
+// by fall-through).  One harness per shape.
+fn cfg3(k0: u8, k1: u8, k2: u8) {
+    crate::arith::reset();
+    let n = 3usize;
+    let ops = [k0, k1, k2];
+    let offs: [i16; 3] = kani::any();
+    let mut prog = [0u8; 24];
+    let mut k = 0;
+    while k < 3 {
+        let insn = ebpf::Insn { opc: ops[k], dst: 0, src: 0, off: offs[k], imm: 0 };
+        let si = SInsn { opc: ops[k], dst: 0, src: 0, off: offs[k], imm: 0 };
+        kani::assume(wf_facts(&si, k, n));
+        let a = insn.to_array();
+        let mut j = 0;
+        while j < 8 { prog[8 * k + j] = a[j]; j += 1; }
+        k += 1;
+    }
+    unsafe { ORACLE = Oracle { load_data: 0, call_ret: 0, params: [kani::any(), kani::any(), kani::any(), kani::any()], stack_base: kani::any(), init_vars: [0; 24] }; }
+    let helpers: HashMap<u32, ebpf::Helper> = HashMap::new();
+    let r = CraneliftCompiler::new(helpers).compile_function(&prog);
+    assert!(r.is_ok(), "ensures: every verified 3-instruction program compiles");
+    let t = unsafe { TRACE };
+    let mut b = 0;
+    while b < clif_core::MAXB {
+        if (b as u32) < t.nblocks {
+            let mut referenced = false;
+            let mut c = 0;
+            while c < clif_core::MAXB {
+                match t.terms[c] { Term::Jump(x) => { if x as usize == b { referenced = true; } } Term::Brif { then_b, else_b, .. } => { if then_b as usize == b || else_b as usize == b { referenced = true; } } _ => {} }
+                c += 1;
+            }
+            if referenced { assert!(t.switched[b] == 1 && t.term_count[b] == 1, "ensures: every block referenced by a terminator is switched to once and terminated once"); }
+            if t.switched[b] > 0 { assert!(t.term_count[b] == 1, "ensures: every block that received instructions is terminated"); }
+        }
+        b += 1;
+    }
+}
+"""
+
+
 def opcodes_of(repo):
     s = Source(os.path.join(repo, 'src/cranelift.rs'))
     with open(os.path.join(repo, 'src/ebpf.rs')) as f:
@@ -66,7 +109,7 @@ def generate(repo, outdir):
     with open(os.path.join(outdir, '.cargo/config.toml'), 'w') as f:
         f.write('[net]\noffline = true\n')
     shutil.copy(os.path.join(VERIF, 'harness/clif/lib_head.rs'), os.path.join(outdir, 'src/lib.rs'))
-    shutil.copy(os.path.join(VERIF, 'spec/arith_real.rs'), os.path.join(outdir, 'src/arith.rs'))
+    shutil.copy(os.path.join(VERIF, 'spec/arith_uf.rs'), os.path.join(outdir, 'src/arith.rs'))
     shutil.copy(os.path.join(VERIF, 'spec/ebpf_sem.rs'), os.path.join(outdir, 'src/spec.rs'))
     shutil.copy(os.path.join(repo, 'src/ebpf.rs'), os.path.join(outdir, 'src/ebpf.rs'))
     with open(os.path.join(outdir, 'src/cranelift.rs'), 'w') as f:
@@ -79,6 +122,15 @@ def generate(repo, outdir):
             continue
         hs.append('\n#[kani::proof]\n#[kani::unwind(14)]\nfn clif_%s() { run_clif(%#04x); } // ebpf::%s\n' % (name.lower(), val, name))
         harnesses.append(dict(name='clif_' + name.lower(), kind='contract', opcode=name))
+    hs.append(BOUNDED_CFG)
+    shapes = {'mov': 0xbf, 'ja': 0x05, 'jeq': 0x1d, 'exit': 0x95}
+    quick_shapes = {('mov', 'jeq', 'exit'), ('ja', 'mov', 'exit'), ('jeq', 'mov', 'ja')}
+    for a in shapes:
+        for b in shapes:
+            for c in ('exit', 'ja'):
+                nm = 'bounded_clif_cfg3_%s_%s_%s' % (a, b, c)
+                hs.append('\n#[kani::proof]\n#[kani::unwind(14)]\nfn %s() { cfg3(%#04x, %#04x, %#04x); }\n' % (nm, shapes[a], shapes[b], shapes[c]))
+                harnesses.append(dict(name=nm, kind='bounded', heavy=(a, b, c) not in quick_shapes))
     with open(os.path.join(outdir, 'src/cranelift/harnesses.rs'), 'w') as f:
         f.write(''.join(hs))
     import hashlib
